@@ -10,52 +10,52 @@
 (* Lagrange recovery) has its image here and TLC can enumerate all cases.  *)
 (* Pure operators only (no variables, the prime is a parameter).           *)
 (***************************************************************************)
-EXTENDS Integers, Sequences, FiniteSets
+EXTENDS Integers, Sequences, FiniteSets, Functions, SequencesExt
+
+(* Folds are the Java-implemented ones of the CommunityModules (no RECURSIVE operators: TLC evaluates *)
+(* the arguments of recursive operators by name, which is very slow for nested sums)                   *)
 
 M(a, p) == a % p                       \* TLC: result in 0..p-1 for p > 0, also for negative a
 
 (* modular inverse of a # 0 (mod p), p prime *)
 Inv(a, p) == CHOOSE x \in 1..(p - 1) : (M(a, p) * x) % p = 1
 
-RECURSIVE Pow(_, _, _)
-Pow(a, k, p) == IF k = 0 THEN 1 ELSE (a * Pow(a, k - 1, p)) % p
+AddP(p, a, b) == (a + b) % p
+MulP(p, a, b) == (a * b) % p
 
-(* sum of f[i] over a finite index set *)
-RECURSIVE SumOver(_, _, _)
-SumOver(f, S, p) == IF S = {} THEN 0
-                    ELSE LET x == CHOOSE y \in S : TRUE IN (f[x] + SumOver(f, S \ {x}, p)) % p
+Pow(a, k, p) == FoldFunctionOnSet(LAMBDA x, y : (x * y) % p, 1, [i \in 1..k |-> M(a, p)], 1..k)
 
-RECURSIVE SumSeq(_, _, _)
-SumSeq(s, i, p) == IF i > Len(s) THEN 0 ELSE (s[i] + SumSeq(s, i + 1, p)) % p
+(* sum (mod p) of f[i] over a finite index set *)
+SumOver(f, S, p) == FoldFunctionOnSet(LAMBDA x, y : (x + y) % p, 0, f, S)
+ProdOver(f, S, p) == FoldFunctionOnSet(LAMBDA x, y : (x * y) % p, 1, f, S)
 
-(* plain integer sum of a sequence (no reduction) *)
-RECURSIVE ISum(_, _)
-ISum(s, i) == IF i > Len(s) THEN 0 ELSE s[i] + ISum(s, i + 1)
+(* sum (mod p) of s[i..Len(s)] *)
+SumSeq(s, i, p) == FoldFunctionOnSet(LAMBDA x, y : (x + y) % p, 0, s, i..Len(s))
+
+(* plain integer sum of s[i..Len(s)] (no reduction) *)
+ISum(s, i) == FoldFunctionOnSet(LAMBDA x, y : x + y, 0, s, i..Len(s))
 
 (* signature, verification *)
 Sig(sk, h, p) == (sk * h) % p
 Ver(sig, pk, h, p) == M(sig, p) = (pk * h) % p
 
 (* polynomial c[1] + c[2] x + ... + c[t] x^(t-1) evaluated at x *)
-RECURSIVE EvalFrom(_, _, _, _)
-EvalFrom(c, k, x, p) == IF k > Len(c) THEN 0 ELSE (c[k] * Pow(x, k - 1, p) + EvalFrom(c, k + 1, x, p)) % p
-Eval(c, x, p) == EvalFrom(c, 1, x, p)
+Eval(c, x, p) == LET cc == c  xx == M(x, p) IN
+                 SumOver([k \in 1..Len(cc) |-> (cc[k] * Pow(xx, k - 1, p)) % p], 1..Len(cc), p)
 
 (* Lagrange coefficient at 0 of the point with abscissa xs[j] among the abscissae xs (a sequence, *)
-(* pairwise distinct and non-zero mod p)                                                          *)
-RECURSIVE LagNumDen(_, _, _, _)
-LagNumDen(xs, j, m, p) ==      \* <<numerator, denominator>> over m..Len(xs), m # j
-  IF m > Len(xs) THEN <<1, 1>>
-  ELSE LET r == LagNumDen(xs, j, m + 1, p) IN
-       IF m = j THEN r ELSE << (r[1] * xs[m]) % p, (r[2] * M(xs[m] - xs[j], p)) % p >>
-Lagrange0(xs, j, p) == LET nd == LagNumDen(xs, j, 1, p) IN (nd[1] * Inv(nd[2], p)) % p
+(* pairwise distinct and non-zero mod p):  Prod_{m # j} xs[m] / (xs[m] - xs[j])                    *)
+Lagrange0(xs, j, p) ==
+  LET others == (1..Len(xs)) \ {j}
+      num == ProdOver([m \in others |-> M(xs[m], p)], others, p)
+      den == ProdOver([m \in others |-> M(xs[m] - xs[j], p)], others, p)
+  IN (num * Inv(den, p)) % p
 
-(* value at 0 of the interpolating polynomial through (xs[j], ys[j]) - order of the points is the *)
-(* order of the sequences; the result must not depend on it (that is one of C34's invariants)      *)
-RECURSIVE RecoverFrom(_, _, _, _)
-RecoverFrom(xs, ys, j, p) == IF j > Len(xs) THEN 0
-                             ELSE (ys[j] * Lagrange0(xs, j, p) + RecoverFrom(xs, ys, j + 1, p)) % p
-Recover(xs, ys, p) == RecoverFrom(xs, ys, 1, p)
+(* value at 0 of the interpolating polynomial through (xs[j], ys[j]) - the order of the points is *)
+(* the order of the sequences; the result must not depend on it (one of C34's invariants)          *)
+Recover(xs, ys, p) ==
+  LET X == xs  Y == ys IN
+  SumOver([j \in 1..Len(X) |-> (Y[j] * Lagrange0(X, j, p)) % p], 1..Len(X), p)
 
 Distinct(xs) == \A i, j \in 1..Len(xs) : i # j => xs[i] # xs[j]
 Range(s) == {s[i] : i \in 1..Len(s)}
